@@ -35,7 +35,10 @@ RULE = (
     "random valid traces of 2..5 sequences built column-wise from (presence mask, run length) runs with "
     "optional clipped ends; pairwise alignments produced by align_optimal / align_banded / align_local_gapped; "
     "random CIGAR strings; sequence sets for align_multiple.  Non-trivial = trace with >= 1 internal gap and "
-    ">= 1 terminal gap (conversions); MSA with >= 3 sequences of different lengths"
+    ">= 1 terminal gap (conversions); MSA with >= 3 sequences of different lengths.  Restrictions by "
+    "construction: all rows of one alignment share one alphabet; nucleotide rows use ACGT only and protein rows "
+    "the 20 standard letters and '*' (FASTA rewrites other symbols, e.g. X->N, U->C, O->K, so that the "
+    "round trip does not return the same sequences there); standard symmetric substitution matrices only"
 )
 
 LETTERS = {"nuc": "ACGT", "prot": "ACDEFGHIKLMNPQRSTVWY"}
@@ -255,6 +258,21 @@ def m_score(cols, seqs, matrix, gap, terminal):
     return total + pen_a, total + pen_b
 
 
+def m_score_sum_of_pairs(cols, seqs, matrix, gap, terminal):
+    """Second reading of "all pairwise scores are counted" for >= 3 rows: the sum over all row
+    pairs of the 2-row score (columns in which both rows of the pair have a gap do not exist
+    for that pair; the terminal region is the one of the pair).  Returns (reading A, reading B)."""
+    n = len(seqs)
+    tot_a = tot_b = 0
+    for i in range(n):
+        for j in range(i + 1, n):
+            sub = [[row[i], row[j]] for row in cols if not (row[i] == -1 and row[j] == -1)]
+            a, b = m_score(sub, [seqs[i], seqs[j]], matrix, gap, terminal)
+            tot_a += a
+            tot_b += b
+    return tot_a, tot_b
+
+
 # --------------------------------------------------------------------------
 # (a) conversions and helpers of one alignment
 # --------------------------------------------------------------------------
@@ -342,16 +360,38 @@ def conv_checks(o, ali, cols, seqs, kind, score_gap, score_terminal):
 
     # terminal gaps
     start, stop = m_terminal(cols, n)
-    got = align.find_terminal_gaps(ali)
-    o.check_eq((int(got[0]), int(got[1])), (start, stop), "find_terminal_gaps_columnwise", f"find_terminal_gaps() cols={cols}")
     if stop < start:
+        # Two rows do not overlap at all: "the alignment columns without terminal gaps" do not
+        # exist.  The docstring does not say which indices describe that; any empty slice (or a
+        # ValueError, as remove_terminal_gaps raises) is accepted.
         o.label("no_overlap")
+        try:
+            got = align.find_terminal_gaps(ali)
+        except ValueError:
+            o.label("no_overlap:find_terminal_gaps_raises")
+        else:
+            o.label("no_overlap:find_terminal_gaps_empty_slice")
+            o.check(
+                len(got) == 2 and len(cols[int(got[0]) : int(got[1])]) == 0,
+                "find_terminal_gaps_columnwise",
+                f"find_terminal_gaps() = {got} is not an empty slice of the {m} columns although two rows do not overlap; cols={cols}",
+            )
+    else:
+        got = align.find_terminal_gaps(ali)
+        o.check_eq((int(got[0]), int(got[1])), (start, stop), "find_terminal_gaps_columnwise", f"find_terminal_gaps() cols={cols}")
+    if stop <= start:
+        # nothing is left between the terminal gaps (stop == start: one row ends directly before
+        # another one starts): an empty alignment or a ValueError ("... would be empty")
+        if stop == start:
+            o.label("overlap_of_zero_columns")
         try:
             rt = align.remove_terminal_gaps(ali)
         except ValueError:
-            pass
+            o.label("remove_terminal_gaps:raises_when_empty")
         else:
+            o.label("remove_terminal_gaps:returns_empty")
             o.check(len(rt) == 0, "remove_terminal_gaps_columnwise", f"no overlap but {len(rt)} columns kept")
+            o.check(list(rt.sequences) == list(ali.sequences), "remove_terminal_gaps_columnwise", "sequences changed")
     else:
         rt = align.remove_terminal_gaps(ali)
         o.check_array_eq(
@@ -366,22 +406,44 @@ def conv_checks(o, ali, cols, seqs, kind, score_gap, score_terminal):
     for mode in ("all", "not_terminal", "shortest"):
         length = m_identity_length(cols, seqs, everyone, mode)
         if length is None:
-            o.expect_raises(ValueError, lambda: align.get_sequence_identity(ali, mode), "identity_columnwise", f"identity {mode} without overlap")
+            # 'not_terminal' without a column between the terminal gaps: matches / 0 columns.
+            # Neither the property nor the docstring says what happens (biotite raises
+            # ValueError); an error or a value that is still "between 0 and 1" / NaN is accepted.
+            try:
+                got = float(align.get_sequence_identity(ali, mode))
+            except Exception as e:  # noqa: BLE001 - undefined quotient, any error is legitimate
+                o.label(f"identity_undefined:{type(e).__name__}")
+            else:
+                o.label("identity_undefined:value")
+                o.check(got != got or 0.0 <= got <= 1.0, "identity_columnwise", f"identity {mode} without overlap: {got} is neither NaN nor in [0, 1]; cols={cols}")
         else:
             got = align.get_sequence_identity(ali, mode)
             o.check(abs(float(got) - matches / length) <= 1e-12, "identity_columnwise", lambda: f"identity {mode}: got {got}, want {matches}/{length}; cols={cols} seqs={seqs}")
         # pairwise matrix
         want_m = np.zeros((n, n))
-        undefined = False
+        defined = np.ones((n, n), dtype=bool)
         for i in range(n):
             for j in range(n):
                 ln = m_identity_length(cols, seqs, [i, j], mode)
                 if ln is None:
-                    undefined = True
+                    defined[i, j] = False
                 else:
                     want_m[i, j] = m_matches(cols, seqs, [i, j]) / ln
-        if undefined:
-            o.expect_raises(ValueError, lambda: align.get_pairwise_sequence_identity(ali, mode), "pairwise_identity_columnwise", f"pairwise identity {mode} without overlap")
+        if not defined.all():
+            # a pair of rows without a column between its terminal gaps: see above - an error, or
+            # a matrix whose defined entries equal the column loop and whose other entries are
+            # NaN or in [0, 1]
+            try:
+                with np.errstate(all="ignore"):
+                    got_m = np.asarray(align.get_pairwise_sequence_identity(ali, mode), dtype=float)
+            except Exception as e:  # noqa: BLE001
+                o.label(f"pairwise_identity_undefined:{type(e).__name__}")
+                continue
+            o.label("pairwise_identity_undefined:value")
+            if o.check(got_m.shape == (n, n), "pairwise_identity_columnwise", f"shape {got_m.shape}"):
+                o.check(bool(np.all(np.abs(got_m[defined] - want_m[defined]) <= 1e-12)), "pairwise_identity_columnwise", lambda: f"{mode}: got {got_m.tolist()}, want {want_m.tolist()} where defined; cols={cols} seqs={seqs}")
+                rest = got_m[~defined]
+                o.check(bool(np.all(np.isnan(rest) | ((rest >= 0.0) & (rest <= 1.0)))), "pairwise_identity_columnwise", lambda: f"{mode}: entries of pairs without overlap {rest.tolist()} neither NaN nor in [0, 1]")
             continue
         got_m = np.asarray(align.get_pairwise_sequence_identity(ali, mode), dtype=float)
         if o.check(got_m.shape == (n, n), "pairwise_identity_columnwise", f"shape {got_m.shape}"):
@@ -395,8 +457,27 @@ def conv_checks(o, ali, cols, seqs, kind, score_gap, score_terminal):
     gap = _gap(score_gap)
     matrix = _matrix(kind)
     want_a, want_b = m_score(cols, seqs, matrix, gap, score_terminal)
-    got = align.score(ali, matrix, gap, score_terminal)
-    o.check(int(got) in (want_a, want_b), "score_columnwise", lambda: f"score(gap={gap}, terminal={score_terminal}): got {got}, want {want_a}" + (f" or {want_b}" if want_b != want_a else "") + f"; cols={cols} seqs={seqs}")
+    accepted = {want_a: "rows", want_b: "rows"}
+    if n >= 3:
+        # "If the alignment contains more than two sequences, all pairwise scores are counted":
+        # biotite charges every gap of every ROW once; charging the gaps of every row PAIR
+        # (sum of the 2-row scores) is the other reading of that sentence - both accepted.
+        # For two rows both readings coincide (strict comparison).
+        for v in m_score_sum_of_pairs(cols, seqs, matrix, gap, score_terminal):
+            accepted.setdefault(v, "sum_of_pairs")
+    if stop < start and not score_terminal:
+        # the unpenalised terminal region is taken from find_terminal_gaps(), which is not
+        # defined without overlap (see above): a ValueError is accepted as well
+        try:
+            got = align.score(ali, matrix, gap, score_terminal)
+        except ValueError:
+            o.label("score_no_overlap:raises")
+            return
+    else:
+        got = align.score(ali, matrix, gap, score_terminal)
+    if n >= 3 and int(got) in accepted and len(set(accepted)) > 1:
+        o.label("score_reading=" + accepted[int(got)])
+    o.check(int(got) in accepted, "score_columnwise", lambda: f"score(gap={gap}, terminal={score_terminal}): got {got}, want one of {sorted(accepted)}; cols={cols} seqs={seqs}")
 
 
 # --------------------------------------------------------------------------
@@ -457,14 +538,15 @@ def resolve_introns(pair, spec):
 def m_cigar(pair, ref, seg, introns, distinguish, hard, terminal):
     """Model of write_alignment_to_cigar on the two-column trace `pair`.
 
-    Returns None if CIGAR cannot express the columns (a column with two gaps), else
-    dict(expanded=ops one char per column incl. clipping, position, expected=columns
-    the reader must reproduce, seg_slice=(a, b) slice of the segment handed to the reader)."""
+    Returns dict(expanded=ops one char per column incl. clipping, position, expected=columns
+    the reader must reproduce, seg_slice=(a, b) slice of the segment handed to the reader,
+    double_gap=True if a written column has a gap in reference AND segment - CIGAR has no
+    operation for it; the model describes the pair alignment without these columns)."""
     seg_cols = [c for c, (r, s) in enumerate(pair) if s != -1]
     lo, hi = seg_cols[0], seg_cols[-1] + 1
     body = pair if terminal else pair[lo:hi]
-    if any(r == -1 and s == -1 for r, s in body):
-        return None
+    double_gap = any(r == -1 and s == -1 for r, s in body)
+    body = [[r, s] for r, s in body if not (r == -1 and s == -1)]
     ops = []
     for r, s in body:
         if r == -1:
@@ -486,6 +568,7 @@ def m_cigar(pair, ref, seg, introns, distinguish, hard, terminal):
         "expected": [[r, s if s == -1 else s - shift] for r, s in body],
         "seg_slice": (start_clip, len(seg) - end_clip) if hard else (0, len(seg)),
         "clips": (start_clip, end_clip),
+        "double_gap": double_gap,
     }
 
 
@@ -511,17 +594,22 @@ def cigar_checks(o, ali, cols, seqs, ref_i, seg_i, opt):
         "terminal_gaps_included" if opt["terminal"] else "terminal_gaps_dropped",
         "distinguish" if opt["distinguish"] else "plain_M",
     )
-    if model is None:
-        # a column with gaps in reference and segment cannot be written as CIGAR
-        o.label("double_gap_column")
+    if model["double_gap"]:
+        # A column with gaps in reference and segment (row pair of an alignment of >= 3
+        # sequences) has no CIGAR operation.  The writer's docstring does not say what happens:
+        # rejecting the alignment (biotite: ValueError) and writing the pair alignment without
+        # these columns are both accepted; in the second case everything below is checked
+        # against the model without the double-gap columns.
         try:
             text = align.write_alignment_to_cigar(ali, as_string=True, **kwargs)
+            tuples = align.write_alignment_to_cigar(ali, as_string=False, **kwargs)
         except ValueError:
+            o.label("double_gap_column:rejected")
             return False
-        o.fail("cigar_roundtrip_trace", f"column with two gaps was written as {text!r}; pair={pair}")
-        return False
-    text = align.write_alignment_to_cigar(ali, as_string=True, **kwargs)
-    tuples = align.write_alignment_to_cigar(ali, as_string=False, **kwargs)
+        o.label("double_gap_column:dropped")
+    else:
+        text = align.write_alignment_to_cigar(ali, as_string=True, **kwargs)
+        tuples = align.write_alignment_to_cigar(ali, as_string=False, **kwargs)
     ctx = f"pair={pair} ref={ref} seg={seg} introns={introns} opt={opt}"
     if not o.check(isinstance(text, str), "cigar_string_and_tuples_agree", f"as_string=True returned {type(text).__name__}"):
         return False
@@ -629,110 +717,164 @@ def fasta_checks(o, ali, cols, seqs, kind, opt):
 
 # --------------------------------------------------------------------------
 # strategies
+#
+# Generating a case must stay cheap (on a loaded machine the budget is otherwise spent on
+# generating instead of checking):
+#  * every strategy object is built ONCE per strategy(tier) call, outside the composite
+#    functions (building and validating strategies per draw costs more than drawing);
+#  * symbols are bulk data: ONE integer seed is drawn from Hypothesis and kept in the case, the
+#    strings are made from it with np.random.default_rng(seed) and stored in the case as well
+#    (HARNESS.md: allowed, the case stays plain data and run() a pure function of the case).
 # --------------------------------------------------------------------------
+_ST_BOOL = st.booleans()
+_ST_KIND = st.sampled_from(["nuc", "prot"])
+_ST_SEED = st.integers(0, 2**32 - 1)
+_ST_GAP = st.one_of(
+    st.integers(-15, -1),
+    st.tuples(st.integers(-15, -1), st.integers(-15, -1)).map(list),
+)
+_ST_CIGAR_OPT = st.fixed_dictionaries(
+    {
+        "introns": st.lists(st.tuples(st.integers(0, 20), st.integers(0, 20), st.integers(0, 20)).map(list), max_size=2),
+        "distinguish": st.booleans(),
+        "hard": st.booleans(),
+        "terminal": st.booleans(),
+    }
+)
+_ST_FASTA_OPT = st.fixed_dictionaries(
+    {
+        "via_text": st.booleans(),
+        "chars_per_line": st.sampled_from([None, 80, 1, 3, 7]),
+        "gap_chars": st.sampled_from(["dash", "underscore", "mixed", "mixed_dot"]),
+        "dot_chars": st.sampled_from(["._", "_.", [".", "_"]]),
+        "explicit_type": st.booleans(),
+    }
+)
+
+
 def st_gap():
-    return st.one_of(
-        st.integers(-15, -1),
-        st.tuples(st.integers(-15, -1), st.integers(-15, -1)).map(list),
-    )
+    return _ST_GAP
 
 
 def st_cigar_opt():
-    return st.fixed_dictionaries(
-        {
-            "introns": st.lists(st.tuples(st.integers(0, 20), st.integers(0, 20), st.integers(0, 20)).map(list), max_size=2),
-            "distinguish": st.booleans(),
-            "hard": st.booleans(),
-            "terminal": st.booleans(),
-        }
-    )
+    return _ST_CIGAR_OPT
 
 
 def st_fasta_opt():
-    return st.fixed_dictionaries(
-        {
-            "via_text": st.booleans(),
-            "chars_per_line": st.sampled_from([None, 80, 1, 3, 7]),
-            "gap_chars": st.sampled_from(["dash", "underscore", "mixed", "mixed_dot"]),
-            "dot_chars": st.sampled_from(["._", "_.", [".", "_"]]),
-            "explicit_type": st.booleans(),
-        }
-    )
+    return _ST_FASTA_OPT
+
+
+def _bulk_strings(seed, pool, lengths):
+    """strings of the given lengths over `pool`: a pure function of the seed, which is stored in
+    the case next to the strings."""
+    rng = np.random.default_rng(seed)
+    out = []
+    for ln in lengths:
+        out.append("".join(pool[k] for k in rng.integers(0, len(pool), size=ln).tolist()))
+    return out
+
+
+_SHAPES = ["mixed", "mixed", "mixed", "all_match", "sparse", "never_all"]
+
+
+def _mask_strategy(n, shape):
+    full = (1 << n) - 1
+    if shape == "all_match":
+        return st.just(full)
+    if shape == "never_all":
+        # no column holds all sequences: sequences without overlap become likely
+        return st.integers(1, full - 1)
+    if shape == "mixed":
+        return st.one_of(st.just(full), st.just(full), st.integers(1, full))
+    return st.integers(1, full)
 
 
 def st_trace_case(tier, nmin, nmax, with_clip=True, allow_absent=False):
     max_runs = 8 if tier == "quick" else 20
     max_run = 4 if tier == "quick" else 9
+    st_n = st.integers(nmin, nmax)
+    st_shape = st.sampled_from(_SHAPES)
+    st_runs = {
+        (n, shape): st.lists(st.tuples(_mask_strategy(n, shape), st.integers(1, max_run)).map(list), min_size=1, max_size=max_runs)
+        for n in range(nmin, nmax + 1)
+        for shape in set(_SHAPES)
+    }
+    st_clip = {n: st.lists(st.sampled_from([0, 0, 0, 1, 2, 5]), min_size=2 * n, max_size=2 * n) for n in range(nmin, nmax + 1)}
+    st_pool = {kind: st.sampled_from(POOLS[kind]) for kind in POOLS}
+    st_absent = st.integers(0, 3)
+    st_at = st.integers(0, max_runs)
+    st_uniform = st.sampled_from([False, False, False, False, True])
 
     @st.composite
     def gen(draw):
-        kind = draw(st.sampled_from(["nuc", "prot"]))
-        n = draw(st.integers(nmin, nmax))
+        kind = draw(_ST_KIND)
+        n = draw(st_n)
         full = (1 << n) - 1
-        shape = draw(st.sampled_from(["mixed", "mixed", "mixed", "all_match", "sparse", "never_all"]))
-        if shape == "all_match":
-            mask = st.just(full)
-        elif shape == "never_all":
-            # no column holds all sequences: sequences without overlap become likely
-            mask = st.integers(1, full - 1)
-        elif shape == "mixed":
-            mask = st.one_of(st.just(full), st.just(full), st.integers(1, full))
-        else:
-            mask = st.integers(1, full)
-        runs = draw(st.lists(st.tuples(mask, st.integers(1, max_run)).map(list), min_size=1, max_size=max_runs))
+        shape = draw(st_shape)
+        runs = draw(st_runs[n, shape])
         present = 0
         for mk, _ in runs:
             present |= mk
-        if present != full and not (allow_absent and draw(st.integers(0, 3)) == 0):
+        if present != full and not (allow_absent and draw(st_absent) == 0):
             # every sequence takes part in the alignment with at least one symbol (unless a row
             # of gaps only is allowed: an empty or completely unaligned sequence)
-            at = draw(st.integers(0, len(runs)))
+            at = draw(st_at) % (len(runs) + 1)
             runs.insert(at, [full & ~present, 1])
         # half of the traces cover every sequence completely (no clipped ends at all)
-        clipping = with_clip and draw(st.booleans())
-        clip_amount = st.sampled_from([0, 0, 0, 1, 2, 5]) if clipping else st.just(0)
-        clip = [[draw(clip_amount), draw(clip_amount)] for _ in range(n)]
-        pool = draw(st.sampled_from(POOLS[kind]))
-        seqs = []
-        for i in range(n):
-            cnt = sum(ln for mk, ln in runs if (mk >> i) & 1)
-            total = clip[i][0] + cnt + clip[i][1]
-            seqs.append(draw(st.text(pool, min_size=total, max_size=total)))
-        return {"kind": kind, "n": n, "runs": runs, "clip": clip, "seqs": seqs}
+        if with_clip and draw(_ST_BOOL):
+            flat = draw(st_clip[n])
+        else:
+            flat = [0] * (2 * n)
+        clip = [[flat[2 * i], flat[2 * i + 1]] for i in range(n)]
+        pool = draw(st_pool[kind])
+        seq_seed = draw(_ST_SEED)
+        # "uniform": every row repeats one symbol (all aligned symbols match)
+        uniform = draw(st_uniform)
+        totals = [clip[i][0] + sum(ln for mk, ln in runs if (mk >> i) & 1) + clip[i][1] for i in range(n)]
+        seqs = _bulk_strings(seq_seed, pool[:1] if uniform else pool, totals)
+        return {"kind": kind, "n": n, "runs": runs, "clip": clip, "seq_seed": seq_seed, "seqs": seqs}
 
     return gen()
 
 
 def st_conv(tier):
+    inner = st_trace_case(tier, 2, 5, allow_absent=True)
+
     @st.composite
     def gen(draw):
-        case = draw(st_trace_case(tier, 2, 5, allow_absent=True))
-        case["score_gap"] = draw(st_gap())
-        case["score_terminal"] = draw(st.booleans())
+        case = draw(inner)
+        case["score_gap"] = draw(_ST_GAP)
+        case["score_terminal"] = draw(_ST_BOOL)
         return case
 
     return gen()
 
 
 def st_cigar(tier):
+    inner = {n: st_trace_case(tier, n, n) for n in (2, 3)}
+    st_n = st.sampled_from([2, 2, 3])
+    st_perm = {n: st.permutations(list(range(n))) for n in (2, 3)}
+
     @st.composite
     def gen(draw):
-        n_max = draw(st.sampled_from([2, 2, 3]))
-        case = draw(st_trace_case(tier, n_max, n_max))
-        pair = draw(st.permutations(list(range(case["n"]))))[:2]
+        n_max = draw(st_n)
+        case = draw(inner[n_max])
+        pair = draw(st_perm[n_max])[:2]
         case["ref"] = pair[0]
         case["seg"] = pair[1]
-        case["opt"] = draw(st_cigar_opt())
+        case["opt"] = draw(_ST_CIGAR_OPT)
         return case
 
     return gen()
 
 
 def st_fasta(tier):
+    inner = st_trace_case(tier, 2, 5, allow_absent=True)
+
     @st.composite
     def gen(draw):
-        case = draw(st_trace_case(tier, 2, 5, allow_absent=True))
-        case["opt"] = draw(st_fasta_opt())
+        case = draw(inner)
+        case["opt"] = draw(_ST_FASTA_OPT)
         return case
 
     return gen()
@@ -760,73 +902,102 @@ def st_edits(max_size):
 
 def st_produced(tier):
     maxlen = 20 if tier == "quick" else 60
+    st_pool = {kind: st.sampled_from(POOLS[kind][1:]) for kind in POOLS}
+    st_related = st.sampled_from([True, True, True, False])
+    st_lens = st.tuples(st.integers(1, maxlen), st.integers(1, maxlen), st.integers(0, 5), st.integers(0, 5))
+    st_uniform = st.sampled_from([False] * 7 + [True])
+    st_ed = st_edits(6)
+    st_method = st.sampled_from(["optimal"] * 5 + ["banded"] * 2 + ["local_gapped"] * 2 + ["local_ungapped", "ungapped"])
+    st_empty = st.sampled_from([False] * 14 + [True])
+    # small affine penalties + max_number > 1: many co-optimal alignments with different numbers of
+    # columns (the branching traceback is where traces were seen to get corrupted)
+    small_affine = st.tuples(st.integers(-6, -1), st.integers(-2, -1)).map(list)
+    st_pgap = st.one_of(_ST_GAP, st.integers(-4, -1), small_affine, small_affine)
+    st_rest = st.fixed_dictionaries(
+        {
+            "terminal": st.booleans(),
+            "max_number": st.sampled_from([1, 1, 3, 3, 10, 10]),
+            "band": st.tuples(st.integers(0, 200), st.integers(0, 6)).map(list),
+            "seed": st.tuples(st.integers(0, 200), st.integers(0, 200)).map(list),
+            "threshold": st.integers(1, 40),
+            "direction": st.sampled_from(["both", "both", "upstream", "downstream"]),
+            "swap_ref": st.booleans(),
+            "cigar_opt": _ST_CIGAR_OPT,
+            "fasta_opt": _ST_FASTA_OPT,
+            "score_gap": _ST_GAP,
+            "score_terminal": st.booleans(),
+        }
+    )
 
     @st.composite
     def gen(draw):
-        kind = draw(st.sampled_from(["nuc", "prot"]))
-        pool = draw(st.sampled_from(POOLS[kind][1:]))
-        related = draw(st.sampled_from([True, True, True, False]))
+        kind = draw(_ST_KIND)
+        pool = draw(st_pool[kind])
+        related = draw(st_related)
+        seq_seed = draw(_ST_SEED)
+        lens = draw(st_lens)
+        uniform = draw(st_uniform)
+        s1, s2, pre, post = _bulk_strings(
+            seq_seed, pool[:1] if uniform else pool, [max(lens[0], 4) if related else lens[0], lens[1], lens[2], lens[3]]
+        )
         if related:
-            s1 = draw(st.text(pool, min_size=4, max_size=maxlen))
-            s2 = _mutate(s1, draw(st_edits(6)), pool)
-        else:
-            s1 = draw(st.text(pool, min_size=1, max_size=maxlen))
-            s2 = draw(st.text(pool, min_size=1, max_size=maxlen))
-        if draw(st.booleans()):
+            s2 = _mutate(s1, draw(st_ed), pool)
+        if draw(_ST_BOOL):
             # embed: makes local / semi-global alignments with clipped ends likely
-            s2 = draw(st.text(pool, max_size=5)) + s2 + draw(st.text(pool, max_size=5))
-        if draw(st.booleans()):
+            s2 = pre + s2 + post
+        if draw(_ST_BOOL):
             s1, s2 = s2, s1
-        method = draw(st.sampled_from(["optimal", "optimal", "banded", "local_gapped"]))
-        local = draw(st.booleans())
-        if draw(st.sampled_from([False] * 14 + [True])):
+        method = draw(st_method)
+        local = draw(_ST_BOOL)
+        if draw(st_empty):
             # an empty sequence: the global alignment consists of gaps in that row only
             s1, method, local, related = "", "optimal", False, False
-            if draw(st.booleans()):
+            if draw(_ST_BOOL):
                 s1, s2 = s2, s1
-        gap = draw(st.one_of(st_gap(), st.integers(-4, -1), st.tuples(st.integers(-6, -1), st.integers(-2, -1)).map(list)))
+        gap = draw(st_pgap)
         if (not s1 or not s2) and not isinstance(gap, int):
             # align_optimal() itself fails with IndexError for an empty sequence and an affine
             # penalty (pairwise.pyx, property C08); producing the alignment is not C11's subject
             gap = gap[0]
-        return {
+        case = {
             "kind": kind,
+            "seq_seed": seq_seed,
             "s1": s1,
             "s2": s2,
             "related": related,
             "method": method,
             "gap": gap,
             "local": local,
-            "terminal": draw(st.booleans()),
-            "max_number": draw(st.sampled_from([1, 1, 3, 10])),
-            "band": [draw(st.integers(0, 200)), draw(st.integers(0, 6))],
-            "seed": [draw(st.integers(0, 200)), draw(st.integers(0, 200))],
-            "threshold": draw(st.integers(1, 40)),
-            "direction": draw(st.sampled_from(["both", "both", "upstream", "downstream"])),
-            "swap_ref": draw(st.booleans()),
-            "cigar_opt": draw(st_cigar_opt()),
-            "fasta_opt": draw(st_fasta_opt()),
-            "score_gap": draw(st_gap()),
-            "score_terminal": draw(st.booleans()),
         }
+        case.update(draw(st_rest))
+        return case
 
     return gen()
 
 
 def st_cigar_parse(tier):
     max_ops = 8 if tier == "quick" else 25
+    # counts of several digits must be parsed, too; 'P' (padding: consumes neither sequence) is
+    # legal SAM that the reader may refuse; an empty body (only clips, or no operation at all)
+    count = st.one_of(st.integers(1, 6), st.integers(1, 6), st.integers(1, 6), st.sampled_from([10, 12, 100]))
+    syms = st.sampled_from(["M", "M", "I", "D", "N", "=", "X"] * 12 + ["P"])
+    op = st.tuples(syms, count).map(list)
+    st_body = {m: st.lists(op, min_size=m, max_size=max_ops) for m in (0, 1)}
+    st_min = st.sampled_from([0] + [1] * 24)
+    st_clips = st.lists(st.sampled_from([0, 0, 1, 4]), min_size=4, max_size=4)
+    st_rest = st.fixed_dictionaries(
+        {
+            "position": st.sampled_from([0, 0, 1, 7, 100]),
+            "ref_extra": st.integers(0, 3),
+            "as_tuples": st.booleans(),
+        }
+    )
 
     @st.composite
     def gen(draw):
-        body = draw(
-            st.lists(
-                st.tuples(st.sampled_from(["M", "M", "I", "D", "N", "=", "X"]), st.integers(1, 6)).map(list),
-                min_size=1,
-                max_size=max_ops,
-            )
-        )
+        body = draw(st_body[draw(st_min)])
         ops = []
-        h1, s1, s2, h2 = (draw(st.sampled_from([0, 0, 1, 4])) for _ in range(4))
+        h1, s1, s2, h2 = draw(st_clips)
         if h1:
             ops.append(["H", h1])
         if s1:
@@ -836,13 +1007,9 @@ def st_cigar_parse(tier):
             ops.append(["S", s2])
         if h2:
             ops.append(["H", h2])
-        return {
-            "kind": draw(st.sampled_from(["nuc", "prot"])),
-            "ops": ops,
-            "position": draw(st.sampled_from([0, 0, 1, 7, 100])),
-            "ref_extra": draw(st.integers(0, 3)),
-            "as_tuples": draw(st.booleans()),
-        }
+        case = {"kind": draw(_ST_KIND), "ops": ops}
+        case.update(draw(st_rest))
+        return case
 
     return gen()
 
@@ -861,53 +1028,68 @@ def _identical_homopolymers(strs):
 def st_msa(tier):
     maxlen = 25 if tier == "quick" else 60
     maxn = 7 if tier == "quick" else 10
+    st_pool = {kind: st.sampled_from(POOLS[kind][1:] * 6 + POOLS[kind][:1]) for kind in POOLS}
+    st_n = st.integers(2, maxn)
+    st_relation = st.sampled_from(["identical", "mutated", "mutated", "mutated", "unrelated", "mixed"])
+    st_lengths = {n: st.lists(st.integers(1, maxlen), min_size=n + 1, max_size=n + 1) for n in range(2, maxn + 1)}
+    # homopolymer sets are the input class of the open finding C11-F1 (narrowed): kept rare
+    st_uniform = st.sampled_from([False] * 24 + [True])
+    st_ed = st_edits(5)
+    st_dist = {
+        n: st.one_of(st.none(), st.none(), st.lists(st.integers(1, 60), min_size=n * (n - 1) // 2, max_size=n * (n - 1) // 2))
+        for n in range(2, maxn + 1)
+    }
+    st_tree = {
+        n: st.one_of(
+            st.none(),
+            st.none(),
+            st.fixed_dictionaries(
+                {
+                    "perm": st.permutations(list(range(n))),
+                    "merges": st.lists(st.tuples(st.integers(0, 50), st.sampled_from([2, 2, 2, 3, 4])).map(list), max_size=n),
+                }
+            ),
+        )
+        for n in range(2, maxn + 1)
+    }
 
     @st.composite
     def gen(draw):
-        kind = draw(st.sampled_from(["nuc", "prot"]))
-        pool = draw(st.sampled_from(POOLS[kind][1:] * 6 + POOLS[kind][:1]))
-        n = draw(st.integers(2, maxn))
-        relation = draw(st.sampled_from(["identical", "mutated", "mutated", "mutated", "unrelated", "mixed"]))
-        text = st.text(pool, min_size=1, max_size=maxlen)
+        kind = draw(_ST_KIND)
+        pool = draw(st_pool[kind])
+        n = draw(st_n)
+        relation = draw(st_relation)
+        seq_seed = draw(_ST_SEED)
+        lengths = draw(st_lengths[n])
+        uniform = draw(st_uniform)
+        fresh = _bulk_strings(seq_seed, pool[:1] if uniform else pool, lengths)
         if relation == "identical":
-            seqs = [draw(text)] * n
+            seqs = [fresh[0]] * n
         elif relation == "unrelated":
-            seqs = [draw(text) for _ in range(n)]
+            seqs = fresh[:n]
         else:
-            base = draw(text)
+            base = fresh[n]
             seqs = []
             for i in range(n):
                 if relation == "mixed" and i % 3 == 2:
-                    seqs.append(draw(text))
+                    seqs.append(fresh[i])
                 elif relation == "mixed" and i % 3 == 1 and seqs:
                     seqs.append(seqs[0])
                 else:
-                    seqs.append(_mutate(base, draw(st_edits(5)), pool)[: maxlen + 5])
+                    seqs.append(_mutate(base, draw(st_ed), pool)[: maxlen + 5])
         k = n * (n - 1) // 2
-        distances = draw(st.one_of(st.none(), st.none(), st.lists(st.integers(1, 60), min_size=k, max_size=k)))
-        tree = draw(
-            st.one_of(
-                st.none(),
-                st.none(),
-                st.fixed_dictionaries(
-                    {
-                        "perm": st.permutations(list(range(n))),
-                        "merges": st.lists(st.tuples(st.integers(0, 50), st.sampled_from([2, 2, 2, 3, 4])).map(list), max_size=n),
-                    }
-                ),
-            )
-        )
         case = {
             "kind": kind,
+            "seq_seed": seq_seed,
             "seqs": seqs,
             "relation": relation,
-            "gap": draw(st_gap()),
-            "terminal": draw(st.booleans()),
-            "distances": distances,
-            "tree": tree,
+            "gap": draw(_ST_GAP),
+            "terminal": draw(_ST_BOOL),
+            "distances": draw(st_dist[n]),
+            "tree": draw(st_tree[n]),
             "narrowed": [],
             # equal inputs are one Sequence object given several times
-            "share_objects": draw(st.booleans()),
+            "share_objects": draw(_ST_BOOL),
         }
         if findings.is_open(F1) and case["distances"] is None and _identical_homopolymers(seqs):
             # open finding C11-F1: ZeroDivisionError while inferring distances; the class is
@@ -949,8 +1131,10 @@ def index_checks(o, ali, cols, seqs, n):
     if o.check(isinstance(sub, Alignment), "alignment_indexing", f"ali[{lo}:{hi}] is a {type(sub).__name__}"):
         o.check_array_eq(sub.trace, full[lo:hi], "alignment_indexing", f"trace of ali[{lo}:{hi}]")
         o.check_eq([str(q) for q in sub.sequences], list(seqs), "alignment_indexing", f"sequences of ali[{lo}:{hi}]")
-        problems = m_validity(full[lo:hi].tolist(), n, [len(q) for q in seqs])
-        o.check(not problems, "indices_strictly_increasing", lambda: f"ali[{lo}:{hi}]: {problems[:2]}")
+        if np.asarray(sub.trace).ndim == 2:
+            # a column range of a valid trace is a valid trace (judged on the returned trace)
+            for clause, msg in m_validity(np.asarray(sub.trace).tolist(), n, [len(q) for q in seqs])[:2]:
+                o.fail(clause, f"ali[{lo}:{hi}]: {msg}")
     pick = [i for i in range(n) if (i + L) % 2 == 0] or [0]
     if len(pick) >= 1:
         for form, index in (("list", list(pick)), ("array", np.array(pick)), ("mask", np.array([i in pick for i in range(n)]))):
@@ -959,7 +1143,14 @@ def index_checks(o, ali, cols, seqs, n):
             o.check_eq([str(q) for q in sub2.sequences], [seqs[i] for i in pick], "alignment_indexing", f"sequences of ali[:, {form} {pick}]")
         sub3 = ali[lo:hi, list(pick)]
         o.check_array_eq(sub3.trace, full[lo:hi][:, pick], "alignment_indexing", f"trace of ali[{lo}:{hi}, {pick}]")
-    o.expect_raises((IndexError, TypeError), lambda: ali[0, list(pick)], "alignment_indexing", "integer as column index")
+    # slices on the sequence axis (the documented form ali[1:4, 0:1])
+    sa = (L + len(seqs[0])) % n
+    sb = sa + 1 + (L + n) % (n - sa)
+    for form, rows, rsl in ((f"{lo}:{hi}", slice(lo, hi), full[lo:hi]), (":", slice(None), full)):
+        sub4 = ali[rows, sa:sb]
+        o.check_array_eq(sub4.trace, rsl[:, sa:sb], "alignment_indexing", f"trace of ali[{form}, {sa}:{sb}]")
+        o.check_eq([str(q) for q in sub4.sequences], list(seqs[sa:sb]), "alignment_indexing", f"sequences of ali[{form}, {sa}:{sb}]")
+    o.label("seq_slice_all" if (sa, sb) == (0, n) else "seq_slice_part")
     o.check_eq(len(ali), L, "alignment_indexing", "len(alignment)")
     same = Alignment(list(ali.sequences), ali.trace.copy(), ali.score)
     o.check(ali == same and not (ali != same), "alignment_indexing", "alignment != an equal alignment")
@@ -1003,26 +1194,49 @@ def run_produced(case):
     matrix = _matrix(kind)
     gap = _gap(case["gap"])
     method = case["method"]
+    if method == "ungapped":
+        # align_ungapped() demands equal lengths: the common prefix length of both strings is used
+        k = min(len(s1), len(s2))
+        s1, s2 = s1[:k], s2[:k]
+        q1, q2 = _mk_seq(kind, s1), _mk_seq(kind, s2)
     o.label(method, "related" if case["related"] else "unrelated")
-    if not s1 or not s2:
+    empty_input = not s1 or not s2
+    if empty_input:
         o.label("empty_input_sequence")
-    if method == "optimal":
-        o.label("local" if case["local"] else ("global" if case["terminal"] else "semiglobal"))
-        alis = align.align_optimal(
-            q1, q2, matrix, gap_penalty=gap, terminal_penalty=case["terminal"], local=case["local"], max_number=case["max_number"]
-        )
-    elif method == "banded":
-        o.label("banded_local" if case["local"] else "banded_semiglobal")
-        diag = -(len(s1) - 1) + case["band"][0] % (len(s1) + len(s2) - 1)
-        w = case["band"][1]
-        alis = align.align_banded(q1, q2, matrix, (diag - w, diag + w), gap_penalty=gap, local=case["local"], max_number=case["max_number"])
-    else:
-        seed = (case["seed"][0] % len(s1), case["seed"][1] % len(s2))
-        o.label("direction=" + case["direction"])
-        alis = align.align_local_gapped(
-            q1, q2, matrix, seed, case["threshold"], gap_penalty=gap, max_number=case["max_number"], direction=case["direction"]
-        )
-    o.check(len(alis) >= 1, "produces_alignment", "no alignment returned")
+    try:
+        if method == "optimal":
+            o.label("local" if case["local"] else ("global" if case["terminal"] else "semiglobal"))
+            alis = align.align_optimal(
+                q1, q2, matrix, gap_penalty=gap, terminal_penalty=case["terminal"], local=case["local"], max_number=case["max_number"]
+            )
+        elif method == "banded":
+            o.label("banded_local" if case["local"] else "banded_semiglobal")
+            diag = -(len(s1) - 1) + case["band"][0] % (len(s1) + len(s2) - 1)
+            w = case["band"][1]
+            alis = align.align_banded(q1, q2, matrix, (diag - w, diag + w), gap_penalty=gap, local=case["local"], max_number=case["max_number"])
+        elif method == "local_gapped":
+            seed = (case["seed"][0] % len(s1), case["seed"][1] % len(s2))
+            o.label("direction=" + case["direction"])
+            alis = align.align_local_gapped(
+                q1, q2, matrix, seed, case["threshold"], gap_penalty=gap, max_number=case["max_number"], direction=case["direction"]
+            )
+        elif method == "local_ungapped":
+            seed = (case["seed"][0] % len(s1), case["seed"][1] % len(s2))
+            o.label("direction=" + case["direction"])
+            alis = [align.align_local_ungapped(q1, q2, matrix, seed, case["threshold"], direction=case["direction"])]
+        else:
+            alis = [align.align_ungapped(q1, q2, matrix)]
+    except Exception as e:  # noqa: BLE001
+        if not empty_input:
+            raise
+        # Whether an aligner accepts an empty sequence is not C11's subject (C08): if it refuses,
+        # there is no alignment to convert.  (As long as it returns one, it is checked below.)
+        o.label(f"empty_input_rejected_by_producer:{type(e).__name__}")
+        return o
+    if len(alis) == 0:
+        # "every alignment the library produces": none produced (whether that is right is C08/C09)
+        o.label("no_alignment")
+        return o
     if len(alis) > 1:
         o.label("several_alignments")
     seqs = [s1, s2]
@@ -1091,14 +1305,31 @@ def run_cigar_parse(case):
     else:
         cigar = text
         o.label("string")
-    ali = align.read_alignment_from_cigar(cigar, pos, ref_seq, seg_seq)
+    if not ops or any(sym == "P" for sym, _ in ops):
+        # not covered by the docstring of the reader: a CIGAR without any operation, and the
+        # padding operation (legal SAM, consumes neither sequence; biotite: "not implemented").
+        # Refusing with an error is accepted; if an alignment is returned it is judged like any
+        # other one (no operation -> no column, 'P' -> no column).
+        what = "empty_cigar" if not ops else "padding_op"
+        try:
+            ali = align.read_alignment_from_cigar(cigar, pos, ref_seq, seg_seq)
+        except (ValueError, NotImplementedError):
+            o.label(what + ":rejected")
+            return o
+        o.label(what + ":read")
+    else:
+        ali = align.read_alignment_from_cigar(cigar, pos, ref_seq, seg_seq)
     cols = check_valid_trace(o, ali, f"read_alignment_from_cigar({text!r}, {pos})")
     o.check_array_eq(ali.trace, np.array(want, dtype=int).reshape(-1, 2), "cigar_read_columns", f"trace of {text!r} at {pos}")
     # the caller owns the returned alignment: editing its trace in place must not influence a
     # later parse of the same CIGAR (at the same or another position)
     if len(want) > 0:
         probe = align.read_alignment_from_cigar(cigar, 0, ref_seq, seg_seq)
-        probe.trace[...] = -7
+        try:
+            probe.trace[...] = -7
+        except ValueError:
+            # a read-only trace cannot be corrupted by the caller either
+            o.label("trace_read_only")
         again0 = align.read_alignment_from_cigar(cigar, 0, ref_seq, seg_seq)
         want0 = np.array(want, dtype=int).reshape(-1, 2)
         want0[want0[:, 0] != -1, 0] -= pos
@@ -1184,8 +1415,10 @@ def run_msa(case):
             seqs, _matrix(kind), gap_penalty=gap, terminal_penalty=case["terminal"], distances=distances, guide_tree=tree
         )
     except ValueError:
-        if distances is None:
-            # documented: the distance of (too) unrelated sequences cannot be calculated
+        if distances is None and len(set(strs)) > 1:
+            # documented: the distance of (too) unrelated sequences cannot be calculated.  Only
+            # inputs that are all equal are certainly not "extremely unrelated" (their alignment
+            # has the maximum score, D = 0): there a ValueError is not the documented one.
             o.label("ValueError_distances_not_computable")
             return o
         raise
@@ -1205,6 +1438,7 @@ def run_msa(case):
         for i in range(n):
             used = [row[i] for row in cols if row[i] != -1]
             o.check(used == list(range(len(strs[i]))), "msa_gap_stripped_rows_equal_inputs", lambda: f"row {i} uses indices {used} of a sequence of length {len(strs[i])}")
+        label_trace(o, cols, n)
         conv_checks(o, ali, cols, strs, kind, case["gap"], case["terminal"])
         # the MSA through FASTA and (first vs. last row) through CIGAR
         fasta_checks(o, ali, cols, strs, kind, {"via_text": True, "chars_per_line": None, "gap_chars": "mixed", "dot_chars": "._", "explicit_type": kind == "prot"})
@@ -1278,14 +1512,24 @@ def run_cigar_small(case):
 # code / symbol matrices for alphabets beyond 127 and 255 symbols (code dtype widths)
 # --------------------------------------------------------------------------
 def st_wide(tier):
+    sizes = [127, 128, 129, 200, 255, 256, 257, 300, 70000]
+    st_size = st.sampled_from(sizes)
+    st_n = st.integers(2, 3)
+    st_seq = {
+        size: st.lists(
+            st.sampled_from([size - 1, size - 2, max(0, size - 129), 127 % size, 128 % size, 255 % size, 0, 1]), min_size=1, max_size=6
+        )
+        for size in sizes
+    }
+    st_runs = {n: st.lists(st.tuples(st.integers(1, 2**n - 1), st.integers(1, 2)).map(list), min_size=1, max_size=6) for n in (2, 3)}
+
     @st.composite
     def gen(draw):
-        size = draw(st.sampled_from([127, 128, 129, 200, 255, 256, 257, 300, 70000]))
-        n = draw(st.integers(2, 3))
-        top = [size - 1, size - 2, max(0, size - 129), 127 % size, 128 % size, 255 % size, 0, 1]
-        seqs = [draw(st.lists(st.sampled_from(top), min_size=1, max_size=6)) for _ in range(n)]
-        runs = draw(st.lists(st.tuples(st.integers(1, 2**n - 1), st.integers(1, 2)), min_size=1, max_size=6))
-        return {"size": size, "seqs": seqs, "runs": [list(r) for r in runs]}
+        size = draw(st_size)
+        n = draw(st_n)
+        seqs = [draw(st_seq[size]) for _ in range(n)]
+        runs = draw(st_runs[n])
+        return {"size": size, "seqs": seqs, "runs": runs}
 
     return gen()
 
@@ -1360,7 +1604,9 @@ SUBS = [
         thorough=150000,
         rule="trace with >= 1 internal gap and >= 1 terminal gap",
         clauses="gapped strings and trace_from_strings back; get_codes/get_symbols; find/remove terminal gaps; "
-        "remove_gaps; identity (3 modes) and pairwise identity; score - all equal to a column loop",
+        "remove_gaps; identity (3 modes) and pairwise identity; score - all equal to a column loop (rows without "
+        "overlap: any empty slice / error / NaN accepted; score of >= 3 rows: gaps per row or per row pair); "
+        "Alignment indexing by column slice, row list / array / mask / slice",
     ),
     Sub(
         "cigar",
@@ -1370,7 +1616,8 @@ SUBS = [
         thorough=150000,
         rule="pair trace with >= 1 internal gap and >= 1 terminal gap that CIGAR can express",
         clauses="read(write(a)) reproduces the trace CIGAR can carry under every option combination; "
-        "op tuples and string agree; operations equal the per-column classification",
+        "op tuples and string agree; operations equal the per-column classification; a column with gaps in both rows "
+        "is either refused (ValueError) or left out",
     ),
     Sub(
         "fasta",
@@ -1385,10 +1632,11 @@ SUBS = [
         "produced",
         st_produced,
         run_produced,
-        quick=2400,
+        quick=2800,
         thorough=60000,
         rule="produced alignment with >= 1 internal gap and (>= 1 terminal gap or clipped ends)",
-        clauses="trace validity of align_optimal / align_banded / align_local_gapped results, and all conversions on them",
+        clauses="trace validity of align_optimal / align_banded / align_local_gapped / align_local_ungapped / align_ungapped "
+        "results, and all conversions on them (a producer that refuses an empty sequence or returns no alignment is not judged)",
     ),
     Sub(
         "cigar_parse",
@@ -1397,7 +1645,8 @@ SUBS = [
         quick=2400,
         thorough=60000,
         rule="parsed alignment with >= 1 internal and >= 1 terminal gap",
-        clauses="trace validity and column content of read_alignment_from_cigar on arbitrary CIGAR strings / op tuples",
+        clauses="trace validity and column content of read_alignment_from_cigar on arbitrary CIGAR strings / op tuples "
+        "(counts of 1..3 digits; 'P' and the empty CIGAR may be refused)",
     ),
     Sub(
         "msa",
@@ -1407,7 +1656,8 @@ SUBS = [
         thorough=30000,
         rule=">= 3 sequences of different lengths, aligned without ValueError",
         clauses="align_multiple: one row per input in input order, gap-stripped rows == inputs, valid trace, "
-        "order is a permutation, tree leaves are 0..n-1 once; documented ValueError accepted when distances are inferred",
+        "order is a permutation, tree leaves are 0..n-1 once; documented ValueError accepted when distances are inferred "
+        "and the inputs are not all equal",
     ),
 ]
 
